@@ -156,6 +156,22 @@ def one(ctx, rng, P, use_strace):
             if k != "only-A":
                 B[p] = rdata(rng, 2000) + b"#"
         ctx.stats.classes["tree:relative-path-longer-than-260"] += 1
+    if rng.random() < 0.25:
+        # the same file name in two folders whose contents change places between A and B (and a third copy that stays)
+        nm = rname(rng)
+        d1, d2 = rdata(rng, 3000), rdata(rng, 3000) + b"?"
+        ps = []
+        for folder in rng.sample(["sw1", "sw2/deep", "game/sw3", "sqpack/ffxiv"], 3):
+            p = folder + "/" + nm
+            if any(u == p or u.startswith(p + "/") or p.startswith(u + "/") for u in used):
+                break
+            used.add(p); ps.append(p)
+        if len(ps) == 3:
+            A[ps[0]], B[ps[0]] = d1, d2
+            A[ps[1]], B[ps[1]] = d2, d1
+            A[ps[2]], B[ps[2]] = d1, d1
+            cls[ps[0]] = cls[ps[1]] = "both-changed-other-size"; cls[ps[2]] = "both-same"
+            ctx.stats.classes["tree:same-name-contents-swapped"] += 1
     if rng.random() < 0.3 and (A or B):
         # a file next to another one whose name is that name plus a suffix an implementation might use for scratch files
         for base in rng.sample(sorted(set(A) | set(B)), min(3, len(set(A) | set(B)))):
@@ -174,6 +190,14 @@ def one(ctx, rng, P, use_strace):
     ra, rb, rw = (os.path.join(base, x) for x in ("A", "B", "W"))
     os.makedirs(ra); os.makedirs(rb)
     zp.write_tree(ra, A); zp.write_tree(rb, B)
+    if rng.random() < 0.5:
+        # every file of both trees carries the same modification time (an installer that stamps its files; a copy that preserves
+        # times): "same size and same time" says nothing about the contents
+        stamp = rng.choice([0, 1_000_000_000, 1_700_000_000])
+        for root_, tree in ((ra, A), (rb, B)):
+            for rel in tree:
+                os.utime(os.path.join(root_, rel), (stamp, stamp))
+        ctx.stats.classes["tree:equal-modification-times"] += 1
     kinds = set(cls.values())
     nontriv = "only-A" in kinds and any(k.startswith("both-changed") for k in kinds)
     ctx.case(digest(sorted(A.items()), sorted(B.items())), nontriv, ["files:%s" % bucket(len(cls))] + ["has:" + k for k in sorted(kinds)],
